@@ -129,8 +129,11 @@ BOUNDS = {
 
 SIGNALS = [0.5, 1.0, 2.0]
 NOISES = [0.25, 1.0]                      # replayed in addition to noise 0
-SIGNAL_MENU = [1.0, 0.0, 0.25, 4.0]       # block G: every draw history at every signal strength ...
-NOISE_MENU = [0.25, 1.0, 2.25]            # ... and every noise variance (plus 0)
+SIGNAL_MENU = [1.0, 0.0, 0.25, 4.0, 1e-8, 1e6]     # block G: every draw history at every signal strength
+NOISE_MENU = [0.25, 1.0, 2.25, 1e-10, 1e6]         # ... and every noise variance (plus 0)
+EXTREME_SIGNALS = [1e-8, 1e6]                      # block H: the usual oracles at unusual scales
+RDM_SCALES = [1e-6, 1e6]
+EPS = float(np.finfo(float).eps)
 DESIGNS = ['vector', 'matrix', 'matrix_rot']
 SIMS = [(1, False), (1, True), (2, True), (2, False)]
 OFFS = [0, 1, 3]
@@ -166,8 +169,11 @@ ORDER_REPS = {
 NOISE_REPS = {'quick': [[(0, 0), (1, 0), (2, 2)]],
               'thorough': [[(0, 0), (1, 2)], [(0, 0), (1, 0), (2, 2)], [(0, 0), (1, 0), (2, 2), (0, 2)]]}
 NOISE_LAYOUTS = [(1, 0, 0), (2, 1, 0), (2, 0, 1), (3, 0, 3)]        # (n_part, a, b): off = a*n_cond + b
+SCALE_REPS = {'quick': [[(0, 0), (1, 0), (2, 2)], [(0, 0), (1, 0), (2, 2), (0, 0)]],
+              'thorough': [[(0, 0), (1, 2)], [(0, 0), (1, 0), (2, 2)], [(0, 0), (1, 0), (2, 2), (0, 0)],
+                           [(0, 0), (1, 0), (2, 2), (0, 2), (2, 1)]]}
 ORDER_PARTS = [(1, 'same'), (2, 'same'), (2, 'rev'), (3, 'rot')]   # (n_part, order of later partitions)
-LABELS = ['index', 'affine']                                      # label of condition c: c | 10 + 3c
+LABELS = ['index', 'affine', 'big']                    # label of condition c: c | 10 + 3c | 100000 + c
 
 
 # ----------------------------------------------------------------------------- enumeration
@@ -208,7 +214,8 @@ def _digits(t):
 
 
 def _cfg(v, off, t=None, sims=None, n_part=None, signal=None, design=None, ncov=None,
-         exact=True, scov=False, order=None, pvar=None, labels=None, tcov=False):
+         exact=True, scov=False, order=None, pvar=None, labels=None, tcov=False,
+         scale=1.0):
     if t is not None:
         a, b, c, d, e = _digits(t)
         sims, signal, ncov = SIMS[a], SIGNALS[c], NCOVS[e]
@@ -221,6 +228,8 @@ def _cfg(v, off, t=None, sims=None, n_part=None, signal=None, design=None, ncov=
         cfg.update(order=[int(x) for x in order], pvar=pvar, labels=labels)
     if tcov:
         cfg['tcov'] = True
+    if scale != 1.0:
+        cfg['scale'] = float(scale)     # declared scale of signal * RDM: comparisons are made in units of it
     return cfg
 
 
@@ -265,6 +274,16 @@ def shards(tier, seed):
         for k in range(len(NOISE_LAYOUTS)):
             for ncov in NCOVS:
                 out.append({'block': 'G', 'rep': r, 'layout': k, 'ncov': ncov})
+    # S: two / three calls in a row (hidden state between calls)
+    for off in OFFS:
+        for design in DESIGNS:
+            out.append({'block': 'S', 'off': off, 'design': design})
+    # H: unusual scales (signal 1e-8 / 1e6, model RDM x 1e-6 / 1e6) and labels 100000+k
+    for r in range(len(SCALE_REPS[tier])):
+        for k in range(len(EXTREME_SIGNALS) + len(RDM_SCALES)):
+            out.append({'block': 'H', 'rep': r, 'k': k})
+    # M: make_signal called directly
+    out.append({'block': 'M'})
     # D: make_design
     out.append({'block': 'D'})
     return out
@@ -315,7 +334,7 @@ def _shard_configs(shard, tier):
             for k, (n_part, pvar) in enumerate(ORDER_PARTS):
                 t = 37 * r + 55 * k + 11 * shard['rep']
                 yield _cfg(v, OFFS[(r + k) % 3], t=_thin(t, r + k, 4), n_part=n_part,
-                           design='vector_order', order=perms[r], pvar=pvar, labels=LABELS[(r + k // 2) % 2])
+                           design='vector_order', order=perms[r], pvar=pvar, labels=LABELS[(r + k // 2) % 3])
     elif blk == 'G':
         pts = NOISE_REPS[tier][shard['rep']]
         v = ref.sq_dists(pts)
@@ -324,11 +343,42 @@ def _shard_configs(shard, tier):
         t = shard['layout'] + 2 * NCOVS.index(shard['ncov']) + shard['rep']
         for tcov in ([False, True] if len(pts) * n_part == len(pts) + off else [False]):
             for sims in SIMS:
-                if sims == (2, False) and not big and (tcov or shard['layout'] % 2 == 1):
-                    continue        # quick: the 81-history option for half of the layouts
+                if sims == (2, False) and not big and (tcov or shard['layout'] != 0 or shard['ncov'] != 'none'):
+                    continue        # quick: the 81-history option for one layout only
                 t += 1
                 yield _cfg(v, off, sims=sims, n_part=n_part, signal=1.0, design=DESIGNS[t % 3],
                            ncov=shard['ncov'], tcov=tcov)
+    elif blk == 'S':
+        v = ref.sq_dists(REPS[tier][0])
+        t = OFFS.index(shard['off']) + 3 * DESIGNS.index(shard['design'])
+        for sims in SIMS:
+            if sims == (2, False) and not big and shard['design'] != 'vector':
+                continue
+            t += 1
+            yield _cfg(v, shard['off'], sims=sims, n_part=1 + t % 3, signal=SIGNALS[t % 3],
+                       design=shard['design'], ncov=NCOVS[t % 2])
+    elif blk == 'H':
+        pts = SCALE_REPS[tier][shard['rep']]
+        k = shard['k']
+        if k < len(EXTREME_SIGNALS):
+            signal, rs = EXTREME_SIGNALS[k], 1.0
+        else:
+            signal, rs = None, RDM_SCALES[k - len(EXTREME_SIGNALS)]
+        v = [rs * x for x in ref.sq_dists(pts)]
+        n = len(pts)
+        t = shard['rep'] + k
+        for off in OFFS:
+            for sims in SIMS[:3]:
+                t += 1
+                sg = signal if signal is not None else SIGNALS[t % 3]
+                scale = rs * (signal if signal is not None else 1.0)
+                if t % 4 == 3:      # hand-made condition vector, labels 100000 + c, reversed order
+                    yield _cfg(v, off, sims=sims, n_part=1 + t % 3, signal=sg, design='vector_order',
+                               ncov=NCOVS[t % 2], order=list(range(n))[::-1], pvar='rot', labels='big',
+                               scale=scale)
+                else:
+                    yield _cfg(v, off, sims=sims, n_part=1 + t % 3, signal=sg, design=DESIGNS[t % 3],
+                               ncov=NCOVS[t % 2], scale=scale)
     elif blk == 'C' and shard['what'] == 'alphabet':
         allv = list(itertools.product((0.0, 1.0, 2.0), repeat=shard['m']))
         for r in range(shard['lo'], min(len(allv), shard['hi'])):
@@ -396,7 +446,8 @@ class _Inputs:
                 elif cfg['pvar'] == 'rot':
                     o = o[part % n:] + o[:part % n]
                 self.cond_of_obs += o
-            label = (lambda c: float(c)) if cfg['labels'] == 'index' else (lambda c: 10.0 + 3.0 * c)
+            label = {'index': lambda c: float(c), 'affine': lambda c: 10.0 + 3.0 * c,
+                     'big': lambda c: 100000.0 + c}[cfg['labels']]
             self.cond_vec = np.array([label(c) for c in self.cond_of_obs], dtype=float)
             self.label_to_idx = {label(c): c for c in range(n)}
         else:
@@ -428,16 +479,80 @@ class _Inputs:
         from rsatoolbox.simulation import sim
         cfg = self.cfg
         rng = rngenv.RngEnv(env, menu=_menu_for(self.seed))
+        args = {'cond_vec': (self.cond_vec if cond_vec is None else cond_vec).copy(),
+                'signal_cov_channel': None if self.scov is None else self.scov.copy(),
+                'noise_cov_channel': None if self.ncov is None else self.ncov.copy(),
+                'noise_cov_trial': None if self.tcov is None else self.tcov.copy()}
+        before = self._arg_state(args)
         with rngenv.installed(rng):
             ds = sim.make_dataset(
-                self.model, self.theta, (self.cond_vec if cond_vec is None else cond_vec).copy(),
-                n_channel=self.n_channel,
+                self.model, self.theta, args['cond_vec'], n_channel=self.n_channel,
                 n_sim=cfg['n_sim'], signal=cfg['signal'] if signal is None else signal, noise=noise,
-                signal_cov_channel=None if self.scov is None else self.scov.copy(),
-                noise_cov_channel=None if self.ncov is None else self.ncov.copy(),
-                noise_cov_trial=None if self.tcov is None else self.tcov.copy(),
+                signal_cov_channel=args['signal_cov_channel'], noise_cov_channel=args['noise_cov_channel'],
+                noise_cov_trial=args['noise_cov_trial'],
                 use_exact_signal=cfg['exact'], use_same_signal=cfg['same'])
+        after = self._arg_state(args)
+        self.problems = [('modifies-argument:%s' % k, 'make_dataset changed its argument %s in place' % k)
+                         for k in before if before[k] != after[k]]
+        self.problems += _sharing_problems(ds, args, self.model)
         return ds, [(c[0], tuple(c[1])) for c in rng.calls]
+
+    def _arg_state(self, args):
+        """bit-level state of everything the caller owns"""
+        st = {k: _bits(a) for k, a in args.items()}
+        st['model.rdm'] = _bits(self.model.rdm)
+        ro = self.model.rdm_obj
+        st['model.rdm_obj'] = (_bits(ro.dissimilarities), tuple(sorted(ro.pattern_descriptors)),
+                               _bits(np.asarray(ro.pattern_descriptors.get('index'))),
+                               tuple(sorted(ro.rdm_descriptors)), tuple(sorted(ro.descriptors)), self.model.name)
+        st['theta'] = _bits(self.theta) if isinstance(self.theta, np.ndarray) else repr(self.theta)
+        return st
+
+
+def _bits(a):
+    if a is None:
+        return None
+    a = np.asarray(a)
+    return (a.dtype.str, a.shape, a.tobytes())
+
+
+def _sharing_problems(ds, args, model):
+    """returned datasets must own their memory: no array of a dataset may overlap an array of
+    another returned dataset or of the caller's arguments; no descriptor dict may be shared"""
+    out = []
+    if not isinstance(ds, (list, tuple)):
+        return out
+    owned = []
+    for i, d in enumerate(ds):
+        arrs = [('measurements', d.measurements)]
+        for kind, dd in (('obs_descriptor', d.obs_descriptors), ('channel_descriptor', d.channel_descriptors),
+                         ('descriptor', d.descriptors)):
+            arrs += [(kind, val) for val in dd.values() if isinstance(val, np.ndarray)]
+        owned.append(arrs)
+    theirs = [(k, a) for k, a in args.items() if a is not None] + [
+        ('model.rdm', model.rdm), ('model.rdm_obj', model.rdm_obj.dissimilarities)]
+    for i, arrs in enumerate(owned):
+        for kind, a in arrs:
+            for k, b in theirs:
+                if np.shares_memory(a, b):
+                    out.append(('result-shares-memory:%s~arg:%s' % (kind, k),
+                                'dataset %d: %s overlaps the caller\'s %s' % (i, kind, k)))
+            for j in range(i):
+                for kind2, b in owned[j]:
+                    if np.shares_memory(a, b):
+                        out.append(('result-shares-memory:%s~%s-of-other-dataset' % (kind, kind2),
+                                    'datasets %d and %d' % (j, i)))
+        for j in range(i):
+            for name in ('descriptors', 'obs_descriptors', 'channel_descriptors'):
+                if getattr(ds[i], name) is getattr(ds[j], name):
+                    out.append(('result-shares-dict:%s' % name, 'datasets %d and %d' % (j, i)))
+    return out
+
+
+def _report_problems(runs, ctx, case):
+    for r in runs:
+        for kind, msg in r.get('problems', ()):
+            ctx.fail('make_dataset|any|%s' % kind, case, msg)
 
 
 @functools.lru_cache(maxsize=4)
@@ -448,7 +563,7 @@ def _menu_for(seed):
 def _run_guarded(inp, env, noise, cond_vec=None, signal=None):
     try:
         ds, calls = inp.simulate(env, noise, cond_vec, signal)
-        return {'ds': ds, 'calls': calls}
+        return {'ds': ds, 'calls': calls, 'problems': inp.problems}
     except (HarnessError, KeyboardInterrupt, SystemExit, MemoryError):
         raise
     except Exception as e:       # judged as a violation by _judge (needs the case descriptor)
@@ -484,11 +599,25 @@ def _noise_draws(inp, choices, got_calls):
     return [menu((inp.n_obs, inp.n_channel), choices[p], p) for p in pos]
 
 
-def _judge_noise_term(inp, term, u, noise, signal, ctx, case, i):
+def _term_dev(a, b, data_scale):
+    """norm-wise RELATIVE deviation of two noise terms (no absolute floor: the terms range from
+    1e-5 to 1e3), net of the rounding of the subtraction data(noise) - data(0) that produced them
+    (8 ulp of the largest datum subtracted)"""
+    scale = max(float(np.abs(a).max()), float(np.abs(b).max()))
+    if scale == 0.0:
+        return 0.0
+    err = float(np.abs(a - b).max())
+    return max(0.0, err - 8 * EPS * data_scale) / scale
+
+
+def _judge_noise_term(inp, term, u, noise, signal, ctx, case, i, data_scale=None):
     """noise term of simulation i (data with noise - data without, same draws, same signal)
     against the reference built from the menu draw u; returns the relative deviation"""
     cands = ref.noise_term_candidates(u, noise, inp.ncov, inp.tcov)
-    dev = min(maxreldev(term, c) for c in cands)
+    if data_scale is None:
+        dev = min(maxreldev(term, c) for c in cands)
+    else:
+        dev = min(_term_dev(term, c, data_scale) for c in cands)
     ctx.dev('noise-term-vs-reference', dev)
     if dev > TOL_NOISE:
         kern = 'noise_cov=%s%s' % (inp.cfg['ncov'], ',trial_cov' if inp.tcov is not None else '')
@@ -529,7 +658,8 @@ def _evaluate_noise(inp, choices, ctx, case, runs0=None):
     if us is None:
         ctx.fail('make_dataset|use_same_signal=%s,n_sim=%d|draw-count' % (cfg['same'], cfg['n_sim']), case,
                  'uniform draws %r, expected %r' % (first, _want_calls(inp)))
-    term = {}
+    _report_problems(runs.values(), ctx, case)
+    term, dscale = {}, {}
     for sg in SIGNAL_MENU:
         clean = _data(runs[(sg, 0.0)]['ds'])
         if sg == 0.0 and any(np.any(c != 0) for c in clean):
@@ -537,33 +667,75 @@ def _evaluate_noise(inp, choices, ctx, case, runs0=None):
         for nz in NOISE_MENU:
             noisy = _data(runs[(sg, nz)]['ds'])
             term[(sg, nz)] = [noisy[i] - clean[i] for i in range(cfg['n_sim'])]
+            dscale[(sg, nz)] = max(float(np.abs(x).max()) for x in noisy + clean)
     s0 = SIGNAL_MENU[0]
     n0 = NOISE_MENU[-1] if 1.0 not in NOISE_MENU else 1.0
     for i in range(cfg['n_sim']):
         for nz in NOISE_MENU:
             for sg in SIGNAL_MENU:
                 if sg != s0:
-                    dev = maxreldev(term[(sg, nz)][i], term[(s0, nz)][i])
+                    dev = _term_dev(term[(sg, nz)][i], term[(s0, nz)][i], max(dscale[(sg, nz)], dscale[(s0, nz)]))
                     ctx.dev('noise-term-across-signals', dev)
                     if dev > TOL_NOISE:
                         ctx.fail('make_dataset|any-noise-kernel|noise-term-depends-on-signal', case,
                                  'simulation %d, noise %g: data(noise) - data(0) at signal %g and at signal '
                                  '%g (same draws) differ by %.3g (relative)' % (i, nz, sg, s0, dev))
                 if nz != n0:
-                    dev = maxreldev(term[(sg, nz)][i] / np.sqrt(nz), term[(sg, n0)][i] / np.sqrt(n0))
+                    dev = _term_dev(term[(sg, nz)][i] / np.sqrt(nz), term[(sg, n0)][i] / np.sqrt(n0),
+                                    max(dscale[(sg, nz)] / np.sqrt(nz), dscale[(sg, n0)] / np.sqrt(n0)))
                     ctx.dev('noise-scaling', dev)
                     if dev > TOL_NOISE:
                         ctx.fail('make_dataset|%s|noise-not-sqrt-scaled' % kern, case,
                                  'simulation %d, signal %g: noise terms for variance %g and %g are not in '
                                  'the ratio of the square roots (%.3g relative)' % (i, sg, nz, n0, dev))
                 if us is not None:
-                    _judge_noise_term(inp, term[(sg, nz)][i], us[i], nz, sg, ctx, case, i)
+                    _judge_noise_term(inp, term[(sg, nz)][i], us[i], nz, sg, ctx, case, i,
+                                      data_scale=dscale[(sg, nz)])
         if not np.any(np.abs(term[(s0, n0)][i]) > 1e-6):
             ctx.fail('make_dataset|%s|noise-term-absent' % kern, case, 'simulation %d' % i)
     ctx.outcome(('noise', kern, tuple(first), tuple(np.round(term[(s0, n0)][0].ravel()[:3], 6).tolist())))
 
 
-def _evaluate(inp, choices, ctx, case, runs0=None):
+def _evaluate_sequence(inp, choices, ctx, case, runs0=None):
+    """block S: calls in a row.  A = the call under the draw history `choices`, B = the same call
+    under a history whose FIRST signal draw has another answer, A' = A again.  A' must be
+    bit-identical to A (nothing is carried over from an earlier call) and B must have another signal
+    than A (with use_same_signal the signal is shared within a call, never across calls)."""
+    cfg = inp.cfg
+    sc = _sigclass(cfg)
+    noise = NOISES[-1]
+    other = list(choices)
+    other[0] = (other[0] + 1) % N_MENU
+    run_a = _run_guarded(inp, choice.Env(choices), noise)
+    run_b = _run_guarded(inp, choice.Env(other), noise)
+    run_a2 = _run_guarded(inp, choice.Env(choices), noise)
+    run_b0 = _run_guarded(inp, choice.Env(other), 0.0)
+    allruns = [r for r in (runs0, run_a, run_b, run_a2, run_b0) if r is not None]
+    for r in allruns:
+        if 'exc' in r:
+            with ctx.guard('make_dataset|%s,same=%s,exact=%s' % (sc, cfg['same'], cfg['exact']), case):
+                raise r['exc']
+            return
+    _report_problems(allruns, ctx, case)
+    if run_a2['calls'] != run_a['calls'] or fingerprint(_data(run_a2['ds'])) != fingerprint(_data(run_a['ds'])):
+        ctx.fail('make_dataset|sequence|repeated-call-differs', case,
+                 'call A, call B (other signal draw), call A again: the two A differ')
+    if runs0 is None:
+        runs0 = _run_guarded(inp, choice.Env(choices), 0.0)
+        if 'exc' in runs0:
+            return
+    sig = 'make_dataset|sequence,use_same_signal=%s|signal-carried-over-from-previous-call' % cfg['same']
+    if inp.zero_rdm or (cfg['exact'] and max(inp.n_cond, inp.n_channel) <= 2):
+        ctx.exclude('sequence: signal difference undetermined (zero RDM / sign-only freedom)')
+    else:
+        a0, b0 = _data(runs0['ds'])[0], _data(run_b0['ds'])[0]
+        if maxreldev(a0, b0) <= 1e-6:
+            ctx.fail(sig, case, 'a call whose signal draw has another answer returns the noise-free data '
+                     'of the previous call')
+    ctx.outcome(('sequence', tuple(run_a['calls']), cfg['same'], cfg['n_sim']))
+
+
+def _evaluate(inp, choices, ctx, case, runs0=None, repeat=None):
     """judge ONE draw history: runs0 = the execution at noise 0 (from the explorer), the other
     noise variances are replays of the same answers"""
     cfg = inp.cfg
@@ -582,6 +754,18 @@ def _evaluate(inp, choices, ctx, case, runs0=None):
         raise HarnessError('the draws requested by make_dataset depend on the noise variance: %r vs %r'
                            % (runs0['calls'], [runs[s2]['calls'] for s2 in NOISES]))
     n_sim, n_cond, n_channel, n_obs = cfg['n_sim'], inp.n_cond, inp.n_channel, inp.n_obs
+    unit = float(cfg.get('scale', 1.0))      # declared scale of signal * RDM (1 except in block H)
+    _report_problems(runs.values(), ctx, case)
+
+    # ---- (7) no hidden state between calls: every 8th evaluation repeats the first call (noise 0)
+    #      after the others; the data must be bit-identical
+    if repeat if repeat is not None else ctx.evaluations % 8 == 0:
+        again = _run_guarded(inp, choice.Env(choices), 0.0)
+        if 'exc' in again or again['calls'] != runs0['calls'] or \
+                fingerprint(_data(again['ds'])) != fingerprint(_data(runs0['ds'])):
+            ctx.fail('make_dataset|sequence|repeated-call-differs', case,
+                     'the same call under the same draw history, repeated after %d other calls, gives '
+                     'different data' % len(NOISES))
 
     # ---- output structure
     for s2 in [0.0] + NOISES:
@@ -600,6 +784,7 @@ def _evaluate(inp, choices, ctx, case, runs0=None):
     if inp.twin_matrix is not None:
         s2 = NOISES[-1]
         twin = _run_guarded(inp, choice.Env(choices), s2, cond_vec=inp.twin_matrix)
+        _report_problems([twin], ctx, case)
         sig6 = 'make_dataset|%s|differs-from-equivalent-design-matrix' % sc
         if 'exc' in twin:
             with ctx.guard('make_dataset|design=matrix(twin),same=%s,exact=%s' % (cfg['same'], cfg['exact']), case):
@@ -671,7 +856,7 @@ def _evaluate(inp, choices, ctx, case, runs0=None):
             ctx.exclude('fresh-signal difference: exact signal in 2 channels is determined up to sign')
         else:
             for i in range(1, n_sim):
-                if maxreldev(clean[0], clean[i]) <= 1e-6:
+                if maxreldev(clean[0] / np.sqrt(unit), clean[i] / np.sqrt(unit)) <= 1e-6:
                     ctx.fail(sig4 + '|signals-equal', case,
                              'noise-free data of simulation 0 and %d are equal although the default '
                              'draws a fresh signal' % i)
@@ -746,14 +931,15 @@ def _evaluate(inp, choices, ctx, case, runs0=None):
             for k, (x, y) in enumerate(ref.pair_index(n_cond)):
                 ix, iy = inp.label_to_idx[labels[x]], inp.label_to_idx[labels[y]]
                 want[k] = cfg['signal'] * pred[pos[(min(ix, iy), max(ix, iy))]]
-            dev = maxreldev(got[0], want)
+            dev = maxreldev(got[0] / unit, want / unit)
             ctx.dev('rdm/n_channel%sn_cond' % ('==' if cfg['off'] == 0 else '>'), dev)
-            if not allclose(got[0], want, TOL_RDM):
-                ctx.fail(sig1 + '|' + _mismatch_kind(got[0], want, n_cond), case,
+            if not allclose(got[0] / unit, want / unit, TOL_RDM):
+                ctx.fail(sig1 + '|' + _mismatch_kind(got[0] / unit, want / unit, n_cond), case,
                          'simulation %d: calc_rdm gives %s, signal * prediction = %s (max rel. dev %.3g)'
-                         % (i, np.round(got[0], 6).tolist(), want.tolist(), dev))
+                         % (i, (got[0] / unit).tolist(), (want / unit).tolist(), dev)
+                         + ('' if unit == 1.0 else ' [both in units of %g]' % unit))
             if i == 0:
-                ctx.outcome(tuple(np.round(want, 6).tolist()) + (len(got_calls),))
+                ctx.outcome(tuple(np.round(want / unit, 6).tolist()) + (len(got_calls), unit))
 
 
 def _mismatch_kind(got, want, n_cond):
@@ -797,11 +983,76 @@ def _design_case(case, ctx):
             ctx.fail('make_design|any|result-structure', case, 'vectors expected, got shapes %r %r'
                      % (cond_vec.shape, part_vec.shape))
             return
+        if np.shares_memory(cond_vec, part_vec):
+            ctx.fail('make_design|any|result-shares-memory:cond_vec~part_vec', case, '')
         for problem in ref.once_per_partition(cond_vec.tolist(), part_vec.tolist(), n_cond, n_part):
             ctx.fail('make_design|any|%s' % problem, case,
                      'n_cond=%d n_part=%d: cond_vec %r part_vec %r' % (
                          n_cond, n_part, cond_vec.tolist(), part_vec.tolist()))
         ctx.outcome((n_cond, n_part, len(cond_vec)))
+
+
+# ----------------------------------------------------------------------------- make_signal directly
+def _signal_case(case, ctx):
+    """one direct make_signal call: G (and the channel factor) bit-identical afterwards, result owns
+    its memory, a second call under the same draw gives the same signal, and - exact option, no
+    channel factor, n_channel >= n_cond - U U' / n_channel == G"""
+    from rsatoolbox.simulation import sim
+    v, off, exact, chol, k = case['v'], case['off'], case['exact'], case['chol'], case['k']
+    n = ref.n_from_len(len(v))
+    n_channel = n + off
+    G = np.array(ref.gram(v), dtype=float)
+    C = None
+    if chol:
+        C = np.linalg.cholesky(np.round(spd(rng_for(ctx.seed, 'scov', n_channel), n_channel), 4))
+    if chol and off < 0:
+        # the channel factor is n_channel x n_channel but the signal is drawn with n_cond channels
+        # first: make_signal raises; both conditions are outside the preconditions of the statement
+        ctx.exclude('make_signal: channel factor together with fewer channels than conditions')
+        return
+    ctx.case(case, nontrivial=bool(np.any(G)))
+    sigp = 'make_signal|exact=%s,chol=%s' % (exact, chol)
+    with ctx.guard(sigp, case):
+        outs = []
+        for _ in range(2):
+            g, c = G.copy(), (None if C is None else C.copy())
+            rng = rngenv.RngEnv(choice.Env([k]), menu=_menu_for(ctx.seed))
+            with rngenv.installed(rng):
+                U = sim.make_signal(g, n_channel, exact, c)
+            if _bits(g) != _bits(G):
+                ctx.fail('make_signal|any|modifies-argument:G', case, 'G changed in place')
+            if c is not None and _bits(c) != _bits(C):
+                ctx.fail('make_signal|any|modifies-argument:chol_channel', case, 'chol_channel changed in place')
+            if np.shares_memory(U, g) or (c is not None and np.shares_memory(U, c)):
+                ctx.fail('make_signal|any|result-shares-memory', case, '')
+            if np.shape(U) != (n, n_channel):
+                ctx.fail(sigp + '|shape', case, 'shape %r, expected %r' % (np.shape(U), (n, n_channel)))
+                return
+            outs.append(np.array(U, dtype=float))
+        if fingerprint(outs[0]) != fingerprint(outs[1]):
+            ctx.fail('make_signal|sequence|repeated-call-differs', case, '')
+        if exact and not chol and off >= 0 and ref.embeddable(v):
+            unit = max(1e-300, float(np.abs(G).max())) if case.get('scaled') else 1.0
+            got = outs[0] @ outs[0].T / n_channel
+            dev = maxreldev(got / unit, G / unit)
+            ctx.dev('make_signal/second-moment', dev)
+            if not allclose(got / unit, G / unit, TOL_RDM):
+                ctx.fail(sigp + '|second-moment-differs', case, 'U U\'/n_channel differs from G by %.3g' % dev)
+        ctx.outcome(('signal', n, off, exact, chol, tuple(np.round(outs[0].ravel()[:2], 6).tolist())))
+
+
+def _signal_cases(tier):
+    for r, pts in enumerate(REPS['thorough']):
+        for rs in [1.0] + RDM_SCALES:
+            if rs != 1.0 and r not in (2, 3):
+                continue
+            v = [rs * x for x in ref.sq_dists(pts)]
+            for off in [-1, 0, 1, 3]:
+                for exact in (True, False):
+                    for chol in (False, True):
+                        for k in range(N_MENU):
+                            yield {'kind': 'signal', 'v': v, 'off': off, 'exact': exact, 'chol': chol, 'k': k,
+                                   'scaled': rs != 1.0}
 
 
 # ----------------------------------------------------------------------------- driver
@@ -810,6 +1061,10 @@ def run_shard(shard, ctx):
         for n_cond in range(1, 7):
             for n_part in range(1, 6):
                 _design_case({'kind': 'design', 'n_cond': n_cond, 'n_part': n_part}, ctx)
+        return
+    if shard['block'] == 'M':
+        for case in _signal_cases(ctx.tier):
+            _signal_case(case, ctx)
         return
     if shard['block'] == 'A':
         vecs, n_cfg = _grid_rdms(shard['n_cond'])
@@ -821,10 +1076,12 @@ def run_shard(shard, ctx):
     for cfg in _shard_configs(shard, ctx.tier):
         inp = _Inputs(cfg, ctx.seed)
         for env, obs in choice.explore(lambda e: _run_guarded(inp, e, 0.0), bound=None, stats=stats):
-            case = dict(cfg, kind='noise' if shard['block'] == 'G' else 'sim', choices=env.choices)
+            case = dict(cfg, kind={'G': 'noise', 'S': 'sequence'}.get(shard['block'], 'sim'), choices=env.choices)
             ctx.case(case, nontrivial=not inp.zero_rdm)
             if shard['block'] == 'G':
                 _evaluate_noise(inp, env.choices, ctx, case, runs0=obs)
+            elif shard['block'] == 'S':
+                _evaluate_sequence(inp, env.choices, ctx, case, runs0=obs)
             else:
                 _evaluate(inp, env.choices, ctx, case, runs0=obs)
             if first and 'ds' in obs:
@@ -842,11 +1099,16 @@ def run_case(case, ctx):
     if case.get('kind') == 'design':
         _design_case(case, ctx)
         return
+    if case.get('kind') == 'signal':
+        _signal_case(case, ctx)
+        return
     cfg = {k: case[k] for k in ('v', 'off', 'n_part', 'n_sim', 'same', 'signal', 'design', 'ncov',
-                                'exact', 'scov', 'order', 'pvar', 'labels', 'tcov') if k in case}
+                                'exact', 'scov', 'order', 'pvar', 'labels', 'tcov', 'scale') if k in case}
     inp = _Inputs(cfg, ctx.seed)
     ctx.case(case, nontrivial=not inp.zero_rdm)
     if case.get('kind') == 'noise':
         _evaluate_noise(inp, list(case['choices']), ctx, case)
+    elif case.get('kind') == 'sequence':
+        _evaluate_sequence(inp, list(case['choices']), ctx, case)
     else:
-        _evaluate(inp, list(case['choices']), ctx, case)
+        _evaluate(inp, list(case['choices']), ctx, case, repeat=True)
